@@ -628,6 +628,8 @@ impl Director {
                 7 | 8 | 13 => run.w.u.leader(self.round + 1) == node && run.w.u.leader(self.round) != node,
                 9 => self.tip.round + 1 == self.round && run.w.u.leader(self.round) != node,
                 12 => self.tip.round + 1 == self.round && run.w.u.leader(self.round + 2) == node,
+                14 => self.tip.round + 1 == self.round && run.w.u.leader(self.round) != node && run.w.u.leader(self.round + 1) != node,
+                15 => self.tip.round + 1 == self.round && run.w.u.leader(self.round + 1) == node,
                 _ => true,
             };
             if ready || run.diverged {
@@ -975,6 +977,95 @@ impl Director {
                     self.round = round + 1;
                 }
             }
+            14 => {
+                // (C01, third attack / C04) A "QC" of round 0 with no votes that names a STORED block instead
+                // of genesis.  Byzantine X (leader of R0+1 and of R0+1+n) holds the only QC for B_a, shows
+                // its B_x to the node alone, and later proposes a far-future block whose QC field is
+                // {hash: B_x, round: 0, votes: []}.  If that passes for genesis-like, the node commits B_a
+                // on an uncertified B_x, while everybody else builds (and commits) a branch on the old tip.
+                let r0 = round;
+                let n = run.w.u.n() as u64;
+                let x = run.w.u.leader(r0 + 1);
+                if x == node || run.w.u.leader(r0) == node || (r0 + 2..=r0 + 5).any(|k| run.w.u.leader(k) == node) || self.tip.round + 1 != r0 {
+                    return;
+                }
+                let oth = others(&run.w.u, node);
+                let base = self.tip.clone();
+                let b_a = run.w.u.mk_block(run.w.u.leader(r0), r0, base.clone(), None, vec![]);
+                self.blocks.insert(b_a.digest().0, b_a.clone());
+                self.give(run, Stim::Msg(ConsensusMessage::Propose(b_a.clone()))).await;
+                let signers = match quorum_subset(&run.w.u, &mut self.rng, &oth) {
+                    Some(s) => s,
+                    None => return,
+                };
+                let qc_a = run.w.u.mk_qc(b_a.digest(), r0, &signers);
+                let b_x = run.w.u.mk_block(x, r0 + 1, qc_a.clone(), None, vec![]);
+                self.blocks.insert(b_x.digest().0, b_x.clone());
+                self.give(run, Stim::Msg(ConsensusMessage::Propose(b_x.clone()))).await;
+                // the far-future block of X with the fake round-0 certificate
+                let fake = QC { hash: b_x.digest(), round: 0, votes: vec![] };
+                let far = r0 + 1 + n;
+                let b_far = run.w.u.mk_block(x, far, fake, None, vec![]);
+                self.give(run, Stim::Msg(ConsensusMessage::Propose(b_far))).await;
+                // everybody else: rounds R0+1 (they never saw B_x) times out, the next leaders build on `base`
+                let entries: Vec<(u64, u64)> = signers.iter().map(|j| (*j, base.round)).collect();
+                let tc1 = run.w.u.mk_tc(r0 + 1, &entries);
+                let c1 = run.w.u.mk_block(run.w.u.leader(r0 + 2), r0 + 2, base.clone(), Some(tc1), vec![]);
+                self.blocks.insert(c1.digest().0, c1.clone());
+                self.give(run, Stim::Msg(ConsensusMessage::Propose(c1.clone()))).await;
+                let qc1 = run.w.u.mk_qc(c1.digest(), r0 + 2, &signers);
+                let c2 = run.w.u.mk_block(run.w.u.leader(r0 + 3), r0 + 3, qc1, None, vec![]);
+                self.blocks.insert(c2.digest().0, c2.clone());
+                self.give(run, Stim::Msg(ConsensusMessage::Propose(c2.clone()))).await;
+                let qc2 = run.w.u.mk_qc(c2.digest(), r0 + 3, &signers);
+                let c3 = run.w.u.mk_block(run.w.u.leader(r0 + 4), r0 + 4, qc2.clone(), None, vec![]);
+                self.blocks.insert(c3.digest().0, c3.clone());
+                self.give(run, Stim::Msg(ConsensusMessage::Propose(c3.clone()))).await;
+                let qc3 = run.w.u.mk_qc(c3.digest(), r0 + 4, &signers);
+                self.qcs.push(qc2);
+                self.qcs.push(qc3.clone());
+                self.tip = qc3;
+                self.tc = None;
+                self.round = r0 + 5;
+            }
+            15 => {
+                // (C05, "nothing else causes a commit") The leader equivocates: the node votes b_alt and can
+                // no longer vote b; b gets genuine votes worth quorum − stake(node) only, and then a vote
+                // that merely NAMES the node as author.  No QC for b exists, so b's parent must not commit.
+                let next = run.w.u.leader(round + 1);
+                if next != node || self.tip.round + 1 != round {
+                    return;
+                }
+                let d = fresh(&mut self.rng);
+                self.give(run, Stim::Batch(d.clone())).await;
+                let b_alt = run.w.u.mk_block(leader, round, self.tip.clone(), None, vec![d]);
+                let b = run.w.u.mk_block(leader, round, self.tip.clone(), None, vec![]);
+                self.blocks.insert(b_alt.digest().0, b_alt.clone());
+                self.blocks.insert(b.digest().0, b.clone());
+                self.give(run, Stim::Msg(ConsensusMessage::Propose(b_alt))).await;
+                self.give(run, Stim::Msg(ConsensusMessage::Propose(b.clone()))).await;
+                let (sv, q) = (run.w.u.stake(node), run.w.u.quorum());
+                let mut part: Vec<u64> = vec![];
+                let mut acc = 0;
+                for j in others(&run.w.u, node) {
+                    if run.w.u.stake(j) > 0 && acc + run.w.u.stake(j) + sv <= q && acc + run.w.u.stake(j) < q {
+                        part.push(j);
+                        acc += run.w.u.stake(j);
+                    }
+                }
+                if part.is_empty() || acc + sv < q {
+                    return;
+                }
+                for j in &part {
+                    let v = run.w.u.mk_vote(b.digest(), round, *j);
+                    self.give(run, Stim::Msg(ConsensusMessage::Vote(v))).await;
+                }
+                let mut forged = run.w.u.mk_vote(b.digest(), round, part[0]);
+                forged.author = run.w.u.pk(node);
+                self.give(run, Stim::Msg(ConsensusMessage::Vote(forged))).await;
+                // the round ends in a timeout for everybody (no QC for either block)
+                self.give(run, Stim::Timer).await;
+            }
             12 => {
                 // (C01, second attack) A Byzantine leader X of round R+1 holds the only QC for B_R and
                 // shows its block B_{R+1} to the node V alone (V leads R+2), together with its own vote
@@ -1066,7 +1157,7 @@ impl Director {
     async fn mischief(&mut self, run: &mut Run<'_>) {
         let node = run.w.node;
         let u_n = run.w.u.n() as u64;
-        match self.rng.gen_range(0, 13) {
+        match self.rng.gen_range(0, 15) {
             0 => {
                 // replay an old message
                 if let Some(s) = self.old.choose(&mut self.rng).cloned() {
@@ -1172,6 +1263,26 @@ impl Director {
                 let tc = if self.rng.gen_bool(0.5) { run.w.u.mk_tc(self.round, &[(j, 0), (j, 0), (j, 0)]) } else { run.w.u.mk_tc(self.round, &[(j, 0)]) };
                 self.give(run, Stim::Msg(ConsensusMessage::TC(tc))).await;
             }
+            12 => {
+                // a block of the right leader whose "QC" is {hash: a stored block, round: 0, no votes}: only
+                // the all-zero genesis QC may go unverified
+                let round = self.round;
+                let leader = run.w.u.leader(round);
+                if leader != node && self.tip.round > 0 {
+                    let fake = QC { hash: self.tip.hash.clone(), round: 0, votes: vec![] };
+                    let b = run.w.u.mk_block(leader, round, fake, None, vec![]);
+                    self.give(run, Stim::Msg(ConsensusMessage::Propose(b))).await;
+                }
+            }
+            13 => {
+                // a burst of digests from the node's own mempool (more than any cap a proposer might
+                // have): all of them must go into its next proposal
+                let k = self.rng.gen_range(130, 170);
+                for _ in 0..k {
+                    let d = crate::sym::sha(&self.rng.gen::<u64>().to_le_bytes());
+                    self.give(run, Stim::Digest(d)).await;
+                }
+            }
             11 => {
                 // a correctly signed timeout of a member that carries a high QC which does not verify
                 // (one signer, for a future round): rejected as a whole; then the node's own timer,
@@ -1205,7 +1316,13 @@ fn stake_styles(rng: &mut SmallRng) -> Vec<u32> {
 
 pub fn run_scenario(seed: u64, steps: usize, rep: &mut Report, use_model: bool) {
     let mut rng = SmallRng::seed_from_u64(seed);
-    let stakes = stake_styles(&mut rng);
+    let mut stakes = stake_styles(&mut rng);
+    // the directed template of this scenario; the two multi-round attacks need five or six consecutive
+    // rounds not led by the node, i.e. a committee of at least six or seven
+    let template = SmallRng::seed_from_u64(seed ^ 0x7e3a).gen_range(0, 16u32);
+    if template == 6 || template == 12 || template == 14 {
+        stakes = vec![1; 7];
+    }
     let n = stakes.len() as u64;
     let mut node = rng.gen_range(1, n + 1);
     if stakes[(node - 1) as usize] == 0 {
@@ -1237,7 +1354,6 @@ pub fn run_scenario(seed: u64, steps: usize, rep: &mut Report, use_model: bool) 
             batches_known: vec![],
         };
         d.absorb(&mut run);
-        let template = d.rng.gen_range(0, 14u32);
         let template_at = d.rng.gen_range(0, steps.max(1) / 2 + 1);
         for step in 0..steps {
             if run.diverged {
